@@ -26,7 +26,7 @@ NAN = float("nan")
 
 def plan(tier, seed):
     na = 40 if tier == "quick" else 1500
-    nt = 8 if tier == "quick" else 150
+    nt = 30 if tier == "quick" else 200
     shards = [{"part": "agg", "seed": seed, "k": k, "n": na} for k in range(6)]
     shards += [{"part": "T", "seed": seed, "k": k, "n": nt} for k in range(10)]
     return shards
@@ -188,11 +188,11 @@ def run_T(desc, ctx):
         fmt = rng.choice(["text", "text", "nc"])
         pool = rng.choice([[0, 1, 2, 3, 4, 5, 6], [0, 3, 6, 12, 18, 24, 48], [0, 1, 3, 6, 12, 13, 36, 72, 240], [0, 6, 12, 18, 24, 30, 36]])
         hours = rng.choice([None, [0], [0, 12]])
-        ds = gen.make_dataset(rng, n_inputs=rng.choice([1, 2]), fmt=fmt, ens=ens, members=rng.randint(1, 4), miss=rng.choice([0.0, 0.0, 0.1]),
+        ds = gen.make_dataset(rng, n_inputs=rng.choice([1, 2]), fmt=fmt, ens=ens, members=rng.randint(1, 4), miss=rng.choice([0.0, 0.1, 0.2]),
                               sparse=0.0, leadtime_pool=pool, max_l=5, max_t=4, vrange=(1, 12), hours=hours,
                               some_without_obs=rng.random() < 0.2)
         tx = rng.choice(["leadtime", "leadtime", "time"])
-        agg = rng.choice(TAGGS)
+        agg = rng.choice(TAGGS + ["sum", "sum", "mean", "mean", "max"])
         if tx == "leadtime":
             h = rng.choice([1, 2, 3, 6, 7, 12, 24, 25, 48, 200])
         else:
